@@ -30,7 +30,9 @@ def sourceProto : Proto :=
 RUNNING its code on a finite probe domain — `_find_views` against a recording registry, a real `Registry`, a real
 `Configurator` over seven kinds of view registration — so they survive behaviour-preserving refactorings): every
 registration calls the cache clear, and as the last thing it does, after every adapter mutation (modify BEFORE
-swap); the clear installs a NEW empty dict object; `_find_views` reads `registry._view_lookup_cache` exactly once
+swap); the clear installs a NEW empty dict object, also when it is called the way a registration calls it (sentinel
+entries under unrelated keys are gone after every kind of registration: no partial invalidation — seeded change
+C15-5); `_find_views` reads `registry._view_lookup_cache` exactly once
 per call and probes and writes that dict with the same key; a lookup that finds nothing writes nothing; the write
 happens with `registry._lock` held; the probe precedes the adapter lookups, which are the SRO product × view types
 read one by one; the list returned is the one cached; a list once returned or cached is never changed by a later
@@ -43,7 +45,7 @@ theorem source_protocol :
     Gen.C15.recognised = true ∧ sourceProto = Proto.good ∧ Gen.C15.writeUnderLock = true ∧
     Gen.C15.probeBeforeScan = true ∧ Gen.C15.scanInLoop = true ∧ Gen.C15.returnsLocal = true ∧
     Gen.C15.fallbackFreshDict = true ∧ Gen.C15.lockIsLock = true ∧ 0 < Gen.C15.registerViewCalls ∧
-    Gen.C15.cachedValuesImmutable = true := by decide
+    Gen.C15.cachedValuesImmutable = true ∧ Gen.C15.clearDropsEverything = true := by decide
 
 /-- GENERATED OBLIGATION.  The cache key determines the scan: every input of `_find_views` whose change alone changes
 the adapter lookups (probed: classifier, view types, request interface, context interface, view name) is
